@@ -59,7 +59,7 @@ Example C06_unsupported_examples :
   fst (query pi_doc pi_doc_e2 ctx_default) = Err (XErrNotFoundVariable [118]%N) /\
   fst (query pi_doc pi_doc_e6 ctx_default) = Ok (XNodes []) /\
   fst (query dtd_doc dtd_doc_e2 ctx_default) = Err (XErrNotFoundFunction [105; 100]%N) /\
-  fst (query ex_doc pi_doc_e7 ctx_default) = Ok (XNodes []).
+  fst (query ex_doc pi_doc_e7 ctx_default) = Ok (XNodes [1%N]).
 Proof. destruct unsupported_examples as (H1&H2&H3&H4&_). repeat split; assumption. Qed.
 
 (** the hypotheses are satisfiable *)
